@@ -94,14 +94,15 @@ type Ctx struct {
 	Mode    string
 	OutDir  string
 
-	mu         sync.Mutex
-	res        Result
-	distinct   map[uint64]struct{}
-	viol       map[string]*Violation
-	sets       map[string]map[string]struct{}
-	journal    *os.File
-	maxSamples int
-	flushMu    sync.Mutex
+	mu          sync.Mutex
+	res         Result
+	distinct    map[uint64]struct{}
+	viol        map[string]*Violation
+	sets        map[string]map[string]struct{}
+	journal     *os.File
+	journalSize int64
+	maxSamples  int
+	flushMu     sync.Mutex
 }
 
 // Exclusive runs f while the periodic result flush is held off (for
@@ -279,7 +280,15 @@ func (c *Ctx) Journal(format string, a ...any) {
 		}
 		c.journal = f
 	}
-	fmt.Fprintf(c.journal, format+"\n", a...)
+	// Only the last line is ever used (crash attribution), so the file is kept small: it starts over at 4 MiB.
+	if c.journalSize > 4<<20 {
+		if err := c.journal.Truncate(0); err == nil {
+			_, _ = c.journal.Seek(0, 0)
+		}
+		c.journalSize = 0
+	}
+	n, _ := fmt.Fprintf(c.journal, format+"\n", a...)
+	c.journalSize += int64(n)
 }
 
 func (c *Ctx) flush(completed bool) error {
